@@ -151,3 +151,49 @@ def identification_key(identification):
         tuple(sorted(v.name for v in identification.outcomes)),
         tuple(sorted(v.name for v in identification.conditions)),
     )
+
+
+def build_graph_incremental(g: dict, probe: bool = True, strict_probes: bool = False):
+    """The same graph built the way a user grows one: an empty NxMixedGraph, then add_node / add_directed_edge /
+    add_undirected_edge one at a time (edges first, so that nodes also appear implicitly), with read-only queries
+    (districts, is_connected, ancestors, topological order) issued between the mutations.  Any caching inside the
+    graph object therefore sees every intermediate state.  Must be indistinguishable from build_graph(g)."""
+    from y0.graph import NxMixedGraph
+
+    graph = NxMixedGraph()
+
+    def look():
+        if not probe:
+            return
+        try:
+            graph.districts()
+            if len(graph.nodes()) > 0:
+                graph.is_connected()
+                first = next(iter(graph.nodes()))
+                graph.ancestors_inclusive(first)
+                graph.descendants_inclusive(first)
+                graph.get_district(first)
+        except Exception:
+            # a failing probe is judged only by the property that owns these queries (C14: strict_probes)
+            if strict_probes:
+                raise
+        try:
+            list(graph.topological_sort())
+        except Exception:
+            pass
+
+    look()
+    steps = [("b", e) for e in g["bi"]] + [("d", e) for e in g["di"]]
+    # interleave: bidirected and directed edges alternately, then the remaining nodes
+    steps = steps[::2] + steps[1::2]
+    for kind, (u, v) in steps:
+        if kind == "d":
+            graph.add_directed_edge(V(u), V(v))
+        else:
+            graph.add_undirected_edge(V(u), V(v))
+        look()
+    for n in g["nodes"]:
+        if V(n) not in graph.nodes():
+            graph.add_node(V(n))
+            look()
+    return graph
